@@ -31,6 +31,9 @@ var shapesC02 = []fshape{
 	{"[@.a][@.b]", func(_ int, a, b bool) bool { return a && b }},
 	{"[OR,@.a][@.b]", func(_ int, a, b bool) bool { return a && b }},
 	{"[OR,@.a,@.b][@.a]", func(_ int, a, b bool) bool { return a }},
+	{"[@.a][OR,@.b,@.id.Less(1)]", func(id int, a, b bool) bool { return a && (b || id < 1) }},
+	{"[@.b][OR,@.a,@.id.GreaterOrEqual(2)][@.id.Less(3)]", func(id int, a, b bool) bool { return b && (a || id >= 2) && id < 3 }},
+	{"[@.id.Less(3),@.b][OR,@.a,@.id.Equal(0)]", func(id int, a, b bool) bool { return id < 3 && b && (a || id == 0) }},
 	{"[{OR,@.a,@.b}]", func(_ int, a, b bool) bool { return a || b }},
 	{"[@.a,{OR,@.b,@.a}]", func(_ int, a, b bool) bool { return a }},
 	{"[OR,{AND,@.a,@.b},{AND,@.b}]", func(_ int, a, b bool) bool { return b }},
@@ -248,6 +251,79 @@ func c02(c *Ctx) {
 						return ""
 					}
 				}
+			}
+		}
+		// arrays that hold null ELEMENTS, with predicates that are true on null without an error
+		for _, sh := range []struct {
+			text string
+			keep func(isNull bool, k int) bool
+		}{{"[@.IsNull()]", func(n bool, k int) bool { return n }}, {"[OR,@.IsNull(),@.k?.Equal(1)]", func(n bool, k int) bool { return n || k == 1 }},
+			{"[@.IsNotNull()]", func(n bool, k int) bool { return !n }}, {"[@.k?.IsNull()]", func(n bool, k int) bool { return n }}} {
+			for pat := 0; pat < 27; pat++ {
+				elems := []*D{}
+				want := []string{}
+				x := pat
+				for i := 0; i < 3; i++ {
+					switch x % 3 {
+					case 0:
+						elems = append(elems, h.Nil())
+						if sh.keep(true, 0) {
+							want = append(want, "null")
+						}
+					default:
+						k := x % 3
+						elems = append(elems, h.Obj("id", h.FloatD(float64(i)), "k", h.FloatD(float64(k))))
+						if sh.keep(false, k) {
+							want = append(want, fmt.Sprint(i))
+						}
+					}
+					x /= 3
+				}
+				ec := c.AddEval("$.xs"+sh.text, h.Obj("xs", h.SliceAny(elems...)), "null-elements", true, true)
+				w := want
+				ec.Check = func(o h.Outcome) string {
+					if o.Class != "ok" || o.Val.Tag != "sl" {
+						return "the filter must succeed; got " + o.Class
+					}
+					got := []string{}
+					for _, e := range o.Val.Xs {
+						if e.Tag == "nil" {
+							got = append(got, "null")
+						} else if ids, ok := idsOf(h.SliceAny(e)); ok {
+							got = append(got, fmt.Sprint(ids[0]))
+						}
+					}
+					if fmt.Sprint(got) != fmt.Sprint(w) {
+						return fmt.Sprintf("kept %v, the predicate is true exactly for %v", got, w)
+					}
+					return ""
+				}
+			}
+		}
+		// a single object all of whose fields are objects is still a single object
+		for _, tc := range []struct {
+			q    string
+			keep bool
+		}{{"$.o[@.home.city.Equal(\"x\")]", true}, {"$.o[@.home.city.Equal(\"y\")]", false}, {"$.o[@.work.n.Greater(1)]", true}, {"$.o[{OR,$.t}]", true}, {"$.o[@.home.zip?.IsNull()]", true}, {"$.w[@.only.n.Equal(2)]", true}} {
+			obj := h.Obj("home", h.Obj("city", h.Str("x")), "work", h.Obj("n", h.FloatD(2)))
+			doc := h.Obj("o", obj, "w", h.Obj("only", h.Obj("n", h.FloatD(2))), "t", h.Bool(true))
+			ec := c.AddEval(tc.q, doc, "object-of-objects", true, true)
+			keep, isW := tc.keep, strings.HasPrefix(tc.q, "$.w")
+			ec.Check = func(o h.Outcome) string {
+				if o.Class != "ok" {
+					return "filter over an object must succeed; got " + o.Class
+				}
+				want := obj
+				if isW {
+					want = h.Obj("only", h.Obj("n", h.FloatD(2)))
+				}
+				if keep && h.Abs(o.Val) != h.Abs(want) {
+					return "predicate true: the object itself is required, got " + short(h.Abs(o.Val))
+				}
+				if !keep && o.Val.Tag != "nil" {
+					return "predicate false: null is required"
+				}
+				return ""
 			}
 		}
 		// a single object whose predicate is null: null, not the object
